@@ -468,6 +468,10 @@ class ModuleVistor(NodeVisitor):
         _localNameToFullName = self.builder.current._localNameToFullName_map
         for al in node.names:
             targetname, asname = al.name, al.asname
+            # Make sure the imported module is processed, like for the "from x import y" form: 
+            # what we find out about the names used in this module (a base class, an inherited member) 
+            # must not depend on whether the imported module happens to be processed before this one.
+            self.system.getProcessedModule(targetname)
             if asname is None:
                 # we're keeping track of all defined names
                 asname = targetname = targetname.split('.')[0]
